@@ -80,7 +80,7 @@ Definition order_bad (bad_last : bool) (tbl : list (bytes * option bytes)) (p : 
 (* THE COMPOSED MODEL (Model/Whole.v): the byte-level gengo.sum of Model/SumFile.v, the enabling rule of
    Model/Dispatch.v; the formatter is the per-case table of what the reference formatter answered *)
 Definition case_env (fixed bad_last : bool) (tbl : list (bytes * option bytes)) : env :=
-  whole_env_fx fixed (tbl_fmt tbl) (order_bad bad_last tbl) [].
+  whole_env_fx fixed (tbl_fmt tbl) (order_bad bad_last tbl) rank0 [].
 
 (* The code under check is the repaired one (fix #26 applied): models run with fixed = true. *)
 Definition code_fixed : bool := true.
